@@ -33,3 +33,167 @@ contract(CU, 'sort_index_for_order',
         'implies(index.depth > 1 and ascending, result == ufe("lexperm", index.oid))',
         'implies(index.depth > 1 and not ascending, result == ufe("rev", ufe("lexperm", index.oid)))',
     ])
+
+
+# ---- Series.sort_values: one permutation, computed from the values (or the key function's result), applied to labels AND values ----
+SER = 'static_frame/core/series.py'
+RECORDS['SortSeries'] = dict(values='elem', _index='elem', _name='elem')
+_ARGSORT = dict(params=dict(a='elem'), order=['a', 'axis', 'kind'], defaults=dict(axis='-1', kind='"quicksort"'), result='elem',
+                ensures=['result == ufe("argsort", a, kind)'])
+_REV = dict(params=dict(key='slice'), order=['key'], result='elem',
+            requires=['is_none(key.start) and is_none(key.stop) and key.step == -1'], ensures=['result == ufe("rev", order)'])
+_ORD = 'cond(ascending, ufe("argsort", {v}, kind), ufe("rev", ufe("argsort", {v}, kind)))'
+contract(SER, 'Series.sort_values',
+    props=['C12'],
+    params=dict(self='SortSeries', ascending='bool', kind='elem'), order=['self'], kwonly=['ascending', 'kind', 'key'],
+    variants=[dict(key='opt[int]')],          # key=None (key functions: bounded stand-in)
+    requires=['is_none(key)'],
+    result='elem',
+    calls={
+        'np.argsort': _ARGSORT,
+        'order.__getitem__': _REV,
+        # ASSUMED: fancy indexing of the label index / the value array by a permutation = the take() of that permutation (fresh array)
+        'self._index.__getitem__': dict(params=dict(key='elem'), order=['key'], result='elem', ensures=['result == ufe("take", self._index, key)']),
+        'self.values.__getitem__': dict(params=dict(key='elem'), order=['key'], result='arr',
+                                        ensures=['result.fresh and result.writeable and result.ndim == 1', 'ufe("content", result.src) == ufe("take", self.values, key)']),
+        'self.__class__': dict(params=dict(values='arr', index='elem', name='elem', own_index='bool'), order=['values'], kwonly=['index', 'name', 'own_index'],
+                               result='elem', requires=['not values.writeable'],     # the constructor takes a frozen array as is
+                               ensures=['result == ufe("series", ufe("content", values.src), index, name)']),
+    },
+    ensures=[
+        # the result holds labels and values both taken through THE SAME permutation: the stable argsort of the values with the
+        # requested kind, reversed as a whole for a descending sort; the name is kept
+        'result == ufe("series", ufe("take", self.values, %s), ufe("take", self._index, %s), self._name)' % (_ORD.format(v='self.values'), _ORD.format(v='self.values')),
+    ])
+
+
+# ---- Frame.sort_values (no key function): key columns feed lexsort LAST-KEY-FIRST so that the first label is the primary key; the same
+# permutation reorders the labels and the data of the sorted axis; the other axis is untouched -----------------------------------------
+FR = 'static_frame/core/frame.py'
+RECORDS['SortFrame'] = dict(_index='elem', _columns='elem', _blocks='elem', _name='elem', shape='tuple[int,int]')
+RECORDS['SortTB'] = dict(ndim='int', shape='tuple[int,int]', oid='elem')
+_LEX = dict(params=dict(keys='list[elem]'), order=['keys'], result='elem',
+            # the caller must establish: key j is sort vector number (m-1-j) of the selection, i.e. the FIRST label is the LAST (= primary) lexsort key
+            requires=['len(keys) == cfs.shape[{ax}]', 'len(keys) >= 2',
+                      'forall_in(0, len(keys), lambda j: at(keys, j) == ufe("vec", cfs.oid, cfs.shape[{ax}] - 1 - j))'],
+            ensures=['result == ufe("lexperm", cfs.oid)'])
+_FORD = 'cond(ascending, {p}, ufe("rev", {p}))'
+
+
+def _perm(ax):
+    sel = 'ufe("sel", self._blocks, ufe("l2i", self.%s, label), %d)' % ('_columns' if ax == 1 else '_index', ax)
+    return 'cond(M == 1, ufe("argsort", ufe("vec", %s, 0), kind), ufe("lexperm", %s))' % (sel, sel)
+
+
+contract(FR, 'Frame.sort_values', key='Frame.sort_values[axis=1]',
+    props=['C12'],
+    params=dict(self='SortFrame', label='elem', ascending='bool', axis='int', kind='elem'), order=['self', 'label'], kwonly=['ascending', 'axis', 'kind', 'key'],
+    ghost_params=dict(M='int'),            # number of key columns selected by `label`
+    variants=[dict(key='opt[int]')],
+    requires=['is_none(key)', 'axis == 1', 'M >= 1'],
+    result='elem',
+    calls={
+        'self._columns._loc_to_iloc': dict(params=dict(k='elem'), order=['k'], result='elem', ensures=['result == ufe("l2i", self._columns, k)']),
+        # ASSUMED: column selection out of the block store gives a TypeBlocks of all rows x the M selected columns (key order)
+        'self._blocks._extract': dict(params=dict(column_key='elem'), order=[], kwonly=['column_key'], result='SortTB',
+                                      ensures=['result.ndim == 2 and result.shape[0] == self.shape[0] and result.shape[1] == M',
+                                               'result.oid == ufe("sel", self._blocks, column_key, 1)']),
+        'cfs._extract_array': dict(params=dict(column_key='int'), order=[], kwonly=['column_key'], result='elem', result_expr='ufe("vec", cfs.oid, column_key)'),
+        'np.lexsort': dict(_LEX, requires=[r.format(ax=1) for r in _LEX['requires']]),
+        'np.argsort': _ARGSORT,
+        'order.__getitem__': _REV,
+        'self._index.__getitem__': dict(params=dict(key='elem'), order=['key'], result='elem', ensures=['result == ufe("take", self._index, key)']),
+        'self._blocks.iloc.__getitem__': dict(params=dict(key='elem'), order=['key'], result='elem', ensures=['result == ufe("take_rows", self._blocks, key)']),
+        'self.__class__': dict(params=dict(data='elem', index='elem', columns='elem', name='elem'), order=['data'],
+                               kwonly=['index', 'columns', 'name', 'own_data', 'own_index', 'own_columns'], defaults=dict(own_columns='False', own_index='False', own_data='False'),
+                               result='elem', ensures=['result == ufe("frame", data, index, columns, name)']),
+    },
+    rec_classes={'SortTB': ['TypeBlocks']},
+    ensures=[
+        'result == ufe("frame", ufe("take_rows", self._blocks, %s), ufe("take", self._index, %s), self._columns, self._name)' % (_FORD.format(p=_perm(1)), _FORD.format(p=_perm(1))),
+    ])
+
+
+# axis == 0: columns are reordered by one or more ROWS (consolidated row arrays).  Two contracts: one label (1-D row array) / a list of labels
+RECORDS['SortArr'] = dict(ndim='int', shape='tuple[int,int]', oid='elem')
+_SEL0 = 'ufe("sel", self._blocks, ufe("l2i", self._index, label), 0)'
+_CALLS0 = {
+    'self._index._loc_to_iloc': dict(params=dict(k='elem'), order=['k'], result='elem', ensures=['result == ufe("l2i", self._index, k)']),
+    'order.__getitem__': _REV,
+    'self._columns.__getitem__': dict(params=dict(key='elem'), order=['key'], result='elem', ensures=['result == ufe("take", self._columns, key)']),
+    'self._blocks.__getitem__': dict(params=dict(key='elem'), order=['key'], result='elem', ensures=['result == ufe("take_cols", self._blocks, key)']),
+    'self.__class__': dict(params=dict(data='elem', index='elem', columns='elem', name='elem'), order=['data'],
+                           kwonly=['index', 'columns', 'name', 'own_data', 'own_index', 'own_columns'], defaults=dict(own_columns='False', own_index='False', own_data='False'),
+                           result='elem', ensures=['result == ufe("frame", data, index, columns, name)']),
+}
+_POST0 = 'result == ufe("frame", ufe("take_cols", self._blocks, %s), self._index, ufe("take", self._columns, %s), self._name)'
+_P0S = 'ufe("argsort_o", %s, kind)' % _SEL0
+contract(FR, 'Frame.sort_values', key='Frame.sort_values[axis=0,one label]',
+    props=['C12'],
+    params=dict(self='SortFrame', label='elem', ascending='bool', axis='int', kind='elem'), order=['self', 'label'], kwonly=['ascending', 'axis', 'kind', 'key'],
+    variants=[dict(key='opt[int]')],
+    requires=['is_none(key)', 'axis == 0'],
+    result='elem',
+    calls=dict(_CALLS0, **{
+        # ASSUMED: selecting ONE row out of the block store gives one consolidated 1-D array
+        'self._blocks._extract_array': dict(params=dict(row_key='elem'), order=[], kwonly=['row_key'], result='SortArr',
+                                            ensures=['result.ndim == 1', 'result.oid == ufe("sel", self._blocks, row_key, 0)']),
+        'np.argsort': dict(params=dict(a='SortArr'), order=['a', 'axis', 'kind'], defaults=dict(axis='-1', kind='"quicksort"'), result='elem',
+                           ensures=['result == ufe("argsort_o", a.oid, kind)']),
+    }),
+    ensures=[_POST0 % (_FORD.format(p=_P0S), _FORD.format(p=_P0S))])
+
+_P0L = 'cond(M == 1, ufe("argsort", ufe("row", %s, 0), kind), ufe("lexperm", %s))' % (_SEL0, _SEL0)
+contract(FR, 'Frame.sort_values', key='Frame.sort_values[axis=0,label list]',
+    props=['C12'],
+    params=dict(self='SortFrame', label='elem', ascending='bool', axis='int', kind='elem'), order=['self', 'label'], kwonly=['ascending', 'axis', 'kind', 'key'],
+    ghost_params=dict(M='int'),            # number of key rows
+    variants=[dict(key='opt[int]')],
+    requires=['is_none(key)', 'axis == 0', 'M >= 1'],
+    result='elem',
+    calls=dict(_CALLS0, **{
+        # ASSUMED: selecting M rows out of the block store gives one consolidated M x columns array
+        'self._blocks._extract_array': dict(params=dict(row_key='elem'), order=[], kwonly=['row_key'], result='SortArr',
+                                            ensures=['result.ndim == 2', 'result.shape[0] == M and result.shape[1] == self.shape[1]',
+                                                     'result.oid == ufe("sel", self._blocks, row_key, 0)']),
+        'cfs.__getitem__': dict(params=dict(key='int'), order=['key'], result='elem', result_expr='ufe("row", cfs.oid, key)'),
+        'np.lexsort': dict(params=dict(keys='list[elem]'), order=['keys'], result='elem',
+                           requires=['len(keys) == cfs.shape[0]', 'len(keys) >= 2',
+                                     'forall_in(0, len(keys), lambda j: at(keys, j) == ufe("row", cfs.oid, cfs.shape[0] - 1 - j))'],
+                           ensures=['result == ufe("lexperm", cfs.oid)']),
+        'np.argsort': _ARGSORT,
+    }),
+    ensures=[_POST0 % (_FORD.format(p=_P0L), _FORD.format(p=_P0L))])
+
+
+# axis == 1 with a key function returning a 2-D ndarray (one sort vector per column of the returned array)
+contract(FR, 'Frame.sort_values', key='Frame.sort_values[axis=1,key->ndarray]',
+    props=['C12'],
+    params=dict(self='SortFrame', label='elem', ascending='bool', axis='int', kind='elem', key='elem'), order=['self', 'label'], kwonly=['ascending', 'axis', 'kind', 'key'],
+    ghost_params=dict(K='arr'),            # the array the key function returns
+    requires=['axis == 1', 'K.ndim == 1 or K.ndim == 2', 'K.rows >= 0 and K.cols >= 1', 'implies(K.ndim == 1, K.cols == 1)'],
+    result='elem',
+    calls={
+        'self._columns._loc_to_iloc': dict(params=dict(k='elem'), order=['k'], result='elem', ensures=['result == ufe("l2i", self._columns, k)']),
+        'self._extract': dict(params=dict(column_key='elem'), order=[], kwonly=['column_key'], result='elem', ensures=['result == ufe("subframe", column_key)']),
+        'key': dict(params=dict(x='elem'), order=['x'], result='arr', ensures=['result == K']),
+        'np.lexsort': dict(params=dict(keys='list[arr]'), order=['keys'], result='elem',
+                           # key j is column (cols-1-j) of the returned array: the FIRST column is the LAST (= primary) lexsort key
+                           requires=['len(keys) == K.cols', 'len(keys) >= 2',
+                                     'forall_in(0, len(keys), lambda j: at(keys, j).src == K.src and at(keys, j).off == K.off + K.cols - 1 - j and at(keys, j).ndim == 1)'],
+                           ensures=['result == ufe("lexperm_k", K.src)']),
+        'np.argsort': dict(params=dict(a='arr'), order=['a', 'axis', 'kind'], defaults=dict(axis='-1', kind='"quicksort"'), result='elem',
+                           requires=['a.src == K.src and a.off == K.off and a.ndim == 1'],
+                           ensures=['result == ufe("argsort_k", K.src, kind)']),
+        'order.__getitem__': _REV,
+        'self._index.__getitem__': dict(params=dict(key='elem'), order=['key'], result='elem', ensures=['result == ufe("take", self._index, key)']),
+        'self._blocks.iloc.__getitem__': dict(params=dict(key='elem'), order=['key'], result='elem', ensures=['result == ufe("take_rows", self._blocks, key)']),
+        'self.__class__': dict(params=dict(data='elem', index='elem', columns='elem', name='elem'), order=['data'],
+                               kwonly=['index', 'columns', 'name', 'own_data', 'own_index', 'own_columns'], defaults=dict(own_columns='False', own_index='False', own_data='False'),
+                               result='elem', ensures=['result == ufe("frame", data, index, columns, name)']),
+    },
+    raises={'RuntimeError': 'K.rows != self.shape[0]'},
+    ensures=[
+        'result == ufe("frame", ufe("take_rows", self._blocks, %s), ufe("take", self._index, %s), self._columns, self._name)'
+        % (_FORD.format(p='cond(K.cols == 1, ufe("argsort_k", K.src, kind), ufe("lexperm_k", K.src))'), _FORD.format(p='cond(K.cols == 1, ufe("argsort_k", K.src, kind), ufe("lexperm_k", K.src))')),
+    ])
